@@ -41,6 +41,7 @@ type SealRule struct {
 
 // BlockObs is what the application saw for one block.
 type BlockObs struct {
+	Listened  bool // the application installed an ApplyEvent listener for this block
 	Atropos   hash.Event
 	Cheaters  []idx.ValidatorID
 	Delivered []hash.Event
@@ -77,7 +78,12 @@ type Inst struct {
 	blocks   []BlockObs          // collected during the current call
 	Dead     bool
 	NBuilds  int
+	// listener policy of the application: mode 0 = ApplyEvent for every block, 1 = from the ListenN-th block of
+	// the instance's life on, 2 = for every other block (odd ones)
+	ListenMode, ListenN int
+	totalBlocks         int
 	lastCrit string
+	keepIndex bool // the next mkLachesis reuses the application's DagIndexer object
 }
 
 func BuildVals(vw []VW) *pos.Validators {
@@ -115,13 +121,19 @@ func (in *Inst) idxCfg() vecfc.IndexConfig {
 func (in *Inst) callbacks() lachesis.ConsensusCallbacks {
 	return lachesis.ConsensusCallbacks{
 		BeginBlock: func(b *lachesis.Block) lachesis.BlockCallbacks {
-			bo := BlockObs{Atropos: b.Atropos, Cheaters: append([]idx.ValidatorID{}, b.Cheaters...)}
+			in.totalBlocks++
+			listen := Listens(in.ListenMode, in.ListenN, in.totalBlocks)
+			bo := BlockObs{Listened: listen, Atropos: b.Atropos, Cheaters: append([]idx.ValidatorID{}, b.Cheaters...)}
 			in.blocks = append(in.blocks, bo)
 			cur := len(in.blocks) - 1
-			return lachesis.BlockCallbacks{
-				ApplyEvent: func(e dag.Event) {
+			var apply lachesis.ApplyEventFn
+			if listen {
+				apply = func(e dag.Event) {
 					in.blocks[cur].Delivered = append(in.blocks[cur].Delivered, e.ID())
-				},
+				}
+			}
+			return lachesis.BlockCallbacks{
+				ApplyEvent: apply,
 				EndBlock: func() *pos.Validators {
 					in.nblocks++
 					ep := uint32(in.store.GetEpoch())
@@ -141,13 +153,26 @@ func (in *Inst) callbacks() lachesis.ConsensusCallbacks {
 	}
 }
 
+// Listens tells whether the application installs ApplyEvent for its k-th block (k from 1).
+func Listens(mode, n, k int) bool {
+	switch mode {
+	case 1:
+		return k >= n
+	case 2:
+		return k%2 == 1
+	}
+	return true
+}
+
 func (in *Inst) open() error {
 	in.store = abft.NewStore(in.mainDB, in.getEpochDB, in.crit, in.storeCfg())
 	return nil
 }
 
 func (in *Inst) mkLachesis() {
-	in.dagIdx = &adapters.VectorToDagIndexer{Index: vecfc.NewIndex(in.crit, in.idxCfg())}
+	if !in.keepIndex || in.dagIdx == nil {
+		in.dagIdx = &adapters.VectorToDagIndexer{Index: vecfc.NewIndex(in.crit, in.idxCfg())}
+	}
 	in.Lch = abft.NewIndexedLachesis(in.store, in.events, in.dagIdx, in.crit, abft.LiteConfig())
 }
 
@@ -272,6 +297,13 @@ func (in *Inst) Build(e *tdag.TestEvent) string {
 		}
 		return fmt.Sprintf("f%d", e.Frame())
 	})
+}
+
+// RestartKeepIndex is Restart with the application keeping its DagIndexer object (in-process restart).
+func (in *Inst) RestartKeepIndex() (res string, blocks []BlockObs) {
+	in.keepIndex = true
+	defer func() { in.keepIndex = false }()
+	return in.Restart()
 }
 
 // Restart: a new Store over the same databases, a fresh index, Bootstrap.
